@@ -32,36 +32,11 @@ def warmup():
     rungrid.explore_case({"g": [[]], "kinds": ["exp"], "jobs": 1}, 0, [])
 
 
-class ScriptedPipe:
-    """read1(n) returns the scripted chunks, never more than n bytes, b'' at EOF."""
+from ..threads import ScriptedPipe as _SP
 
-    def __init__(self, chunks):
-        self.chunks = [bytes(c) for c in chunks if len(c)]
-        self.calls = 0
 
-    def read1(self, n=-1):
-        self.calls += 1
-        if not self.chunks:
-            return b""
-        c = self.chunks[0]
-        if n is not None and 0 <= n < len(c):
-            self.chunks[0] = c[n:]
-            return c[:n]
-        self.chunks.pop(0)
-        return c
-
-    def read(self, n=-1):
-        # a reader that insists on full blocks sees the same stream
-        out = b""
-        while n < 0 or len(out) < n:
-            c = self.read1(n - len(out) if n >= 0 else -1)
-            if not c:
-                break
-            out += c
-        return out
-
-    def close(self):
-        pass
+def ScriptedPipe(chunks):
+    return _SP(chunks, "s")
 
 
 def compositions(data):
@@ -99,6 +74,10 @@ def items(tier):
         out.append({"kind": "records", "combos": combos[i:i + 12]})
     for size in (0, 1, 4096, 65536, 65537, 200_000, 1_048_576):
         out.append({"kind": "real", "size": size})
+    # the two tee jobs of one TeeProcessor under a controlled scheduler: all interleavings with <= 2 (3) preemptions
+    for oc in (["AAAA"], ["AAAA", "BB"], ["A" * 5000]):
+        for ec in (["xxxx"], ["xxxx", "yy"], ["x" * 5000]):
+            out.append({"kind": "tee-threads", "out": oc, "err": ec, "bound": 2 if tier == "quick" else 3})
     return out
 
 
@@ -236,6 +215,34 @@ def run_item(item, tier):
         res["sample"] = {"args": item["combos"][-1][0], "options": item["combos"][-1][1]}
     elif item["kind"] == "real":
         _real(item["size"], res, viol)
+    elif item["kind"] == "tee-threads":
+        from .. import threads
+        want = {"o": "".join(item["out"]).encode(), "e": "".join(item["err"]).encode()}
+        outcomes = set()
+
+        def on_exec(schedule, logs, fwd, error):
+            res["evals"] += 1
+            outcomes.add((logs["o"], logs["e"], fwd["o"], fwd["e"], error))
+            art = {"kind": "tee-threads", "out": item["out"], "err": item["err"], "bound": item["bound"], "schedule": schedule}
+            if error:
+                viol("tee-threads:exception", "schedule %s: %s" % ("".join(schedule), error), art)
+            for t, nm in (("o", "stdout"), ("e", "stderr")):
+                if logs[t] != want[t]:
+                    viol("tee-threads:log", "interleaving %s of the two tee threads: %s.log holds %r, the task wrote %r"
+                         % ("".join(schedule), nm, logs[t][:40], want[t][:40]), art)
+                if fwd[t] != want[t]:
+                    viol("tee-threads:forward", "interleaving %s of the two tee threads: %r forwarded to cond's %s, the task wrote %r"
+                         % ("".join(schedule), fwd[t][:40], nm, want[t][:40]), art)
+            if res["sample"] is None and len(set(schedule)) == 2:
+                res["sample"] = {"stdout_chunks": [c[:8] for c in item["out"]], "stderr_chunks": [c[:8] for c in item["err"]],
+                                 "schedule_of_line_steps": "".join(schedule)}
+
+        n, capped = threads.explore_tee([c.encode() for c in item["out"]], [c.encode() for c in item["err"]], item["bound"], on_exec)
+        res["counters"]["thread_schedules"] = n
+        res["counters"]["distinct_thread_outcomes"] = len(outcomes)
+        res["sigs"].update(explore.sig([item["out"], item["err"], i]) for i in range(min(n, 50)))
+        if capped:
+            res.setdefault("caps", []).append("tee-threads: schedule cap reached")
     for key, (what, art) in found.items():
         res["violations"].append({"key": key, "what": what, "artefact": art})
     return res
@@ -289,5 +296,19 @@ def _real(size, res, viol):
 
 
 def replay(artefact):
+    if artefact.get("kind") == "tee-threads" and artefact.get("schedule"):
+        from .. import threads
+        run = threads.TeeRun([c.encode() for c in artefact["out"]], [c.encode() for c in artefact["err"]], artefact["schedule"])
+        logs, fwd = run.run()
+        want = {"o": "".join(artefact["out"]).encode(), "e": "".join(artefact["err"]).encode()}
+        got = []
+        if run.error:
+            got.append(("tee-threads:exception", run.error))
+        for t in "oe":
+            if logs[t] != want[t]:
+                got.append(("tee-threads:log", "log differs"))
+            if fwd[t] != want[t]:
+                got.append(("tee-threads:forward", "forward differs"))
+        return got
     r = run_item(artefact, "quick")
     return [(v["key"], v["what"]) for v in r["violations"]]
